@@ -29,10 +29,14 @@ The expansion of an event (`expand`) follows Lemmas/C12SigRefine.lean; in additi
 The bus observation (`cycWires`) decodes the endpoint's outputs: ACK / NAK requests and the consumer's transfers
 `(payload, first, last)`.
 
-Limits (stated as hypotheses `EvOk` / `histOk`): a data event follows a token accepted by this device (OUT
-transactions addressed to another device on a shared bus are outside), and — C13's acceptor bounds every packet by
-the endpoint's max packet size — so do the packets of transactions to other endpoints (in particular the 8-byte
-SETUP packets: `max_packet_size ≥ 8` for histories with control transfers).
+  * a data packet that follows a token for ANOTHER device (no `new_token`, the token detector clears its PID
+    register, the acceptor is in `idle`) moves nothing but the boundary detector (`ref_data_unarmed`).
+
+Limits (stated as hypotheses `EvOk` / `histOk`): a data packet while the registers name this endpoint follows a token
+accepted by this device and fits into the FIFO (the event level's `legalEvent`); and — C13's acceptor, which
+describes the packet's shape, bounds every packet by the endpoint's max packet size — so do the packets of
+transactions to other endpoints or devices (in particular the 8-byte SETUP packets: `max_packet_size ≥ 8` for
+histories with control transfers).
 -/
 set_option linter.unusedSimpArgs false
 set_option linter.unusedVariables false
@@ -805,6 +809,147 @@ theorem ref_data_own {c : Config} (hmps : 1 ≤ c.mps) (e : OutState) {t : Tok} 
   · simp only [dataCyc, if_true, runState_append, runState]; exact d1
   · simp only [dataCyc, if_true, cycWires_append, cycWires, a2, b2, d2, List.nil_append, List.append_nil]
 
+/-! ### A data packet that follows a token for another device
+
+The token detector does not strobe `new_token` for a token with a foreign address (it clears its PID register), so
+the acceptor is in phase `idle` when the data packet of such a transaction arrives; C13's write-side invariant does
+not speak about it.  The registers do not name the endpoint, so nothing but the boundary detector moves: the detector
+is followed through the packet by `detRel_step` (the acceptor's phases, entered at `tok t` for the registers' `t`,
+serve as the description of the packet's shape only), everything else stays as between transactions. -/
+
+/-- the detector in phase `p` of a foreign packet, everything else as in `Rel0 … idle` -/
+def FRel (c : Config) (e : OutState) (s : State) (p : Phase) : Prop :=
+  ∃ (w : WState) (del : List Entry), DetRel p s.det ∧ s.regs = w.r ∧
+    (∃ q, TxnFifo.Rel c.depth s.fifo q ∧ q.W = w.W ∧ del ++ q.C.map dec = w.com.map dec) ∧
+    w.Inv c .idle ∧ w.a = acctOf e ∧ w.acc = del ++ e.fifo.map dec
+
+theorem frel_idle {c : Config} {e : OutState} {s : State} : FRel c e s .idle ↔ Rel0 c e s .idle :=
+  ⟨fun ⟨w, del, h1, h2, h3, h4, h5, h6⟩ => ⟨w, del, ⟨h1, h2, h3, h4⟩, h5, h6⟩,
+   fun ⟨w, del, ⟨h1, h2, h3, h4⟩, h5, h6⟩ => ⟨w, del, h1, h2, h3, h4, h5, h6⟩⟩
+
+theorem frel_enter {c : Config} {e : OutState} {s : State} (t : Tok) (h : Rel0 c e s .idle) : FRel c e s (.tok t) := by
+  obtain ⟨w, del, h1, h2, h3, h4, h5, h6⟩ := frel_idle.mpr h
+  exact ⟨w, del, h1, h2, h3, h4, h5, h6⟩
+
+/-- the registers of a cycle inside a transaction show its token -/
+theorem step_tokOf {c : Config} {t : Tok} {p p' : Phase} {i : In} (hs : p.step c i = some p')
+    (hn : i.tokNew = false) (h : tokIs t p) (hp : p ≠ .idle) : Tok.of i = t := by
+  cases p with
+  | idle => exact absurd rfl hp
+  | tok t' =>
+    simp only [tokIs] at h; subst h
+    obtain ⟨_, h3⟩ := step_tok_inv hs
+    rcases h3 with ⟨h1, _⟩ | ⟨_, h1, _⟩ | ⟨_, h1, _⟩ | ⟨_, h1, _⟩
+    · simp [hn] at h1
+    all_goals exact h1
+  | rx t' pid sent now buf => simp only [tokIs] at h; subst h; exact (stable_inv (step_rx_inv hs).1).1
+  | finByte t' pid sent now ok => simp only [tokIs] at h; subst h; exact (stable_inv (step_finByte_inv hs).1).1
+  | finStrobe t' pid bytes ok r => simp only [tokIs] at h; subst h; exact (stable_inv (step_finStrobe_inv hs).1).1
+  | finWait t' pid bytes => simp only [tokIs] at h; subst h; exact (stable_inv (step_finWait_inv hs).1).1
+
+/-- a cycle without `tokenizer.ready_for_response`, halt-clear strobe, consumer read or new token -/
+def calm' (j : In) : Bool := !j.tokReady && !j.clearHalt && !j.ready && !j.tokNew
+
+theorem calm'_of_calm {j : In} (h : calm j = true) : calm' j = true := by
+  simp only [calm, calm', Bool.and_eq_true, Bool.not_eq_true'] at h ⊢
+  exact ⟨⟨⟨h.1.1.1.2, h.1.1.2⟩, h.1.2⟩, h.2⟩
+
+/-- one cycle of a foreign packet: only the detector moves, the handshake lines stay low -/
+theorem foreign_step {c : Config} {e : OutState} {s : State} {p p' : Phase} {i : In} (h : FRel c e s p)
+    (hs : p.step c i = some p') (hnt : (i.tokEp == c.epNum && i.tokIsOut) = false) (hc : calm' i = true) :
+    FRel c e (step c s i).1 p' ∧ wire1 i (step c s i).2 = [] ∧ (step c s i).1.fifo.rr = (step c s i).1.fifo.cr := by
+  simp only [calm', Bool.and_eq_true, Bool.not_eq_true'] at hc
+  obtain ⟨⟨⟨htr, hch⟩, hrd⟩, hnew⟩ := hc
+  obtain ⟨w, del, hdet, hregs, ⟨q, hrel, hW, hdel⟩, hinv, hwa, hacc⟩ := h
+  refine ⟨⟨w, del, detRel_step hdet hs, ?_, ?_, hinv, hwa, hacc⟩, ?_, rrcr_step c s i hrd⟩
+  · rw [step_regs, ← hregs]
+    obtain ⟨fifo, det, tg, ovf, cnt, ta, pif, phd⟩ := s
+    simp [regsNext, combG, State.regs, hnt, hch, hnew]
+  · have hlegal := fifo_inputs_legal c s i (view_not_both hdet.view)
+    refine ⟨q.step c.depth (fifoIn c s i), TxnFifo.rel_step hrel hlegal, ?_, ?_⟩
+    · rw [← hW]; simp [TxnFifo.Queue.step, fifoIn, comb, hnt, hrd]
+    · rw [← hdel]; simp [TxnFifo.Queue.step, fifoIn, comb, hnt, hrd]
+  · have h1 : (step c s i).2.ack = false := by simp [step, outOf, comb, hnt, htr]
+    have h2 : (step c s i).2.nak = false := by simp [step, outOf, comb, hnt, htr]
+    exact wire1_low h1 h2 hrd
+
+theorem foreign_run {c : Config} (hmps : 1 ≤ c.mps) {e : OutState} {t : Tok} (ht : t.targets c = false)
+    (is : List In) : ∀ {p p' : Phase} (s : State), Phase.run c p is = some p' → (∀ j ∈ is, calm' j = true) →
+      tokIs t p → FRel c e s p → s.fifo.rr = s.fifo.cr →
+      FRel c e (runState c s is) p' ∧ cycWires c s is = [] ∧
+        (runState c s is).fifo.rr = (runState c s is).fifo.cr := by
+  induction is with
+  | nil =>
+    intro p p' s hr _ _ h hrc
+    simp only [Phase.run, Option.some.injEq] at hr
+    subst hr; exact ⟨h, rfl, hrc⟩
+  | cons i is ih =>
+    intro p p' s hr hc htk h hrc
+    simp only [Phase.run] at hr
+    cases hs : p.step c i with
+    | none => simp [hs] at hr
+    | some p1 =>
+      simp only [hs] at hr
+      have hci := hc i (by simp)
+      have hnew : i.tokNew = false := by
+        simp only [calm', Bool.and_eq_true, Bool.not_eq_true'] at hci; exact hci.2
+      have htk1 : tokIs t p1 := tokIs_step hs hnew htk
+      have key : FRel c e (step c s i).1 p1 ∧ wire1 i (step c s i).2 = [] ∧
+          (step c s i).1.fifo.rr = (step c s i).1.fifo.cr := by
+        by_cases hp : p = .idle
+        · subst hp
+          have hq : Quiet i := by
+            simp only [calm', Bool.and_eq_true, Bool.not_eq_true'] at hci
+            exact ⟨(step_idle_inv hs).2.1, hci.1.1.1, hci.1.1.2, hci.1.2⟩
+          have hp1 : p1 = .idle := by
+            obtain ⟨_, _, h3⟩ := step_idle_inv hs
+            rcases h3 with ⟨h1, _⟩ | ⟨_, h1⟩
+            · simp [hnew] at h1
+            · exact h1
+          subst hp1
+          obtain ⟨a, b⟩ := ref_quiet1 (e := e) hmps hs hq s ⟨frel_idle.mp h, hrc⟩
+          simp only [runState, cycWires, List.append_nil] at a b
+          exact ⟨frel_idle.mpr a.1, b, a.2⟩
+        · have htok := step_tokOf hs hnew htk hp
+          have hnt : (i.tokEp == c.epNum && i.tokIsOut) = false := by
+            have := ht
+            simp only [Tok.targets, ← htok, Tok.of] at this
+            exact this
+          exact foreign_step h hs hnt hci
+      obtain ⟨k1, k2, k3⟩ := key
+      obtain ⟨a, b, d⟩ := ih _ hr (fun j hj => hc j (by simp [hj])) htk1 k1 k3
+      exact ⟨a, by simp only [cycWires, k2, b, List.append_nil], d⟩
+
+/-- a data packet that follows a token for another device (the registers do not name the endpoint): nothing happens -/
+theorem ref_data_unarmed {c : Config} (hmps : 1 ≤ c.mps) (e : OutState) {t : Tok} {pidT : Nat} {p : List Nat}
+    {crcOk : Bool} {seg tail : List In} {resp : In} (ht : t.targets c = false)
+    (h : segOk c t pidT p crcOk seg resp tail = true) :
+    Ref c .idle .idle e e (dataCyc crcOk seg resp tail) [] := by
+  have hrun : Phase.run c (.tok t) (dataCyc crcOk seg resp tail) = some .idle ∧
+      ∀ j ∈ dataCyc crcOk seg resp tail, calm' j = true := by
+    have hall : ∀ j ∈ seg ++ tail, calm' j = true := by
+      have h1 := h
+      simp only [segOk, Bool.and_eq_true, List.all_eq_true] at h1
+      exact fun j hj => calm'_of_calm (h1.1 j hj)
+    cases crcOk with
+    | false => exact ⟨(segOk_bad h).2, by simpa [dataCyc] using hall⟩
+    | true =>
+      obtain ⟨_, _, pk, p', h1, _, h2, h3, _, h4, h5, h6, h7⟩ := segOk_good h
+      refine ⟨?_, ?_⟩
+      · simp only [dataCyc, if_true]
+        rw [run_append h1]
+        simp only [Phase.run, h2]; exact h3
+      · intro j hj
+        simp only [dataCyc, if_true, List.mem_append, List.mem_cons] at hj
+        rcases hj with hj | rfl | hj
+        · exact hall j (by simp [hj])
+        · simp [calm', h4, h5, h6, h7]
+        · exact hall j (by simp [hj])
+  intro s hr
+  obtain ⟨a, b, d⟩ := foreign_run (e := e) hmps ht _ s hrun.1 hrun.2 (show tokIs t (.tok t) from rfl)
+    (frel_enter t hr.1) hr.2
+  exact ⟨⟨frel_idle.mp a, d⟩, b⟩
+
 /-! ### The expansion of an event -/
 
 /-- The free parameters of an expansion (cf. `C12Sig.Gaps`): the free inputs of the idle cycles before / between /
@@ -850,16 +995,17 @@ def armedNext (a : Bool) (tk : Tk) (sh : Shared) (ev : HostEvent) : Bool :=
   | .data _ _ _ => false
   | _ => a && tkOf sh == tk
 
-/-- The environment hypotheses of a data event: it follows a token accepted by this device (`armed`) whose fields
-the registers keep showing; its cycles are a transaction of C13's acceptor carrying the event's PID toggle
-(`rx_pid_toggle = active_pid[3]`, as `USBDevice` wires it), payload and CRC verdict (`segOk`); and, if it is
-addressed to this endpoint, it fits into the FIFO (the event level's `legalEvent`). -/
+/-- The environment hypotheses of a data event: the registers keep showing the token fields; its cycles are a
+transaction of C13's acceptor carrying the event's PID toggle (`rx_pid_toggle = active_pid[3]`, as `USBDevice` wires
+it), payload and CRC verdict (`segOk`); and, if the registers name this endpoint, the packet follows a token accepted
+by this device (`armed`; after a token for another device the PID register is cleared) and fits into the FIFO (the
+event level's `legalEvent`). -/
 def EvOk (ec : EpCfg) (a : Bool) (tk : Tk) (sh : Shared) (e : OutState) (ev : HostEvent) (g : Gaps) : Prop :=
   match ev with
   | .data pid p crcOk =>
-    a = true ∧ tkOf sh = tk ∧
+    tkOf sh = tk ∧
     segOk (cfgOf ec) (tokOf tk) (tn (pidToggleBit pid)) p crcOk g.seg g.resp g.tail = true ∧
-    ((tk.ep = ec.num ∧ tk.pid = PID_OUT) → e.fifo.length + p.length ≤ ec.depth)
+    ((tk.ep = ec.num ∧ tk.pid = PID_OUT) → a = true ∧ e.fifo.length + p.length ≤ ec.depth)
   | _ => True
 
 instance (ec : EpCfg) (a : Bool) (tk : Tk) (sh : Shared) (e : OutState) (ev : HostEvent) (g : Gaps) :
@@ -936,12 +1082,17 @@ theorem out_cycle_refines_event (ec : EpCfg) (hw : 0 < ec.size) (a : Bool) (tk :
       simpa only [expand, armedNext, outEv, hep, if_false, hpre] using this
   | data pid p crcOk =>
     have hpre : outPre ec sh e = e := outPre_quiet ec sh e hsh.2
-    obtain ⟨ha, htk, hseg, hfit⟩ := hev
-    subst ha
+    obtain ⟨htk, hseg, hfit⟩ := hev
     have hsh' : sh.tokEp = tk.ep ∧ sh.tokPid = tk.pid := by rw [← htk]; exact ⟨rfl, rfl⟩
-    simp only [expand, armedNext, outEv, hpre, phOf, if_true, Bool.false_eq_true, if_false, hsh'.1, hsh'.2]
+    simp only [expand, armedNext, outEv, hpre, hsh'.1, hsh'.2]
+    have hidle : phOf false (tkOf sh) = .idle := rfl
+    rw [hidle]
     by_cases hown : tk.ep = ec.num ∧ tk.pid = PID_OUT
     · have ht : (tokOf tk).targets (cfgOf ec) = true := (tokOf_targets ec tk).mpr hown
+      obtain ⟨ha, hfit'⟩ := hfit hown
+      subst ha
+      have harm : phOf true tk = .tok (tokOf tk) := rfl
+      rw [harm]
       simp only [hown, and_self, if_true]
       cases crcOk with
       | false =>
@@ -949,15 +1100,20 @@ theorem out_cycle_refines_event (ec : EpCfg) (hw : 0 < ec.size) (a : Bool) (tk :
         exact (ref_data_bad hmps e hseg).wires_eq (by simp [wiresOf])
       | true =>
         rw [outData_good]
-        exact (ref_data_own hmps e ht (hfit hown) hseg).wires_eq (by simp [wiresOf])
+        exact (ref_data_own hmps e ht hfit' hseg).wires_eq (by simp [wiresOf])
     · have ht : (tokOf tk).targets (cfgOf ec) = false := by
         cases h : (tokOf tk).targets (cfgOf ec)
         · rfl
         · exact absurd ((tokOf_targets ec tk).mp h) hown
       simp only [hown, if_false]
-      cases crcOk with
-      | false => exact (ref_data_bad hmps e hseg).wires_eq (by simp [wiresOf])
-      | true => exact (ref_data_foreign hmps e ht hseg).wires_eq (by simp [wiresOf])
+      cases a with
+      | false => exact (ref_data_unarmed hmps e ht hseg).wires_eq (by simp [wiresOf])
+      | true =>
+        have harm : phOf true tk = .tok (tokOf tk) := rfl
+        rw [harm]
+        cases crcOk with
+        | false => exact (ref_data_bad hmps e hseg).wires_eq (by simp [wiresOf])
+        | true => exact (ref_data_foreign hmps e ht hseg).wires_eq (by simp [wiresOf])
   | setSignal ep v =>
     have := hother hsh.1 hsh.2
     simpa only [expand, armedNext, outEv] using this
@@ -1070,7 +1226,8 @@ def out2 : Tk := ⟨PID_OUT, 2⟩
 
 /-- PING (ACK: the FIFO is empty); DATA0 `[11,12,13]` (ACK, committed); the same packet again (ACK, dropped);
 DATA1 `[21,22]` corrupted (nothing), then good (ACK); PING (NAK: 12 − 5 < 8); the consumer reads 4 entries; an OUT
-transaction for endpoint 1 (nothing); DATA0 `[31]` (ACK; DATA1 is expected next); CLEAR_FEATURE(ENDPOINT_HALT) for
+transaction for endpoint 1 (nothing); an OUT transaction for endpoint 2 of the device with address 5 (no `new_token`,
+the PID register is cleared: nothing); DATA0 `[31]` (ACK; DATA1 is expected next); CLEAR_FEATURE(ENDPOINT_HALT) for
 OUT 2; DATA0 `[41]` (ACK and committed: the toggle has been reset); the consumer reads the rest. -/
 def exHistory : List (HostEvent × Gaps) :=
   [(.token PID_PING 0 2, exGaps),
@@ -1080,6 +1237,7 @@ def exHistory : List (HostEvent × Gaps) :=
    (.token PID_OUT 0 2, exGaps), (.quiet, exGaps), exData out2 PID_DATA1 [21, 22] true,
    (.token PID_PING 0 2, exGaps), (.consume 2 4, exGaps),
    (.token PID_OUT 0 1, exGaps), exData ⟨PID_OUT, 1⟩ PID_DATA0 [9] true,
+   (.token PID_OUT 5 2, exGaps), exData ⟨0, 1⟩ PID_DATA1 [7, 7] true,
    (.token PID_OUT 0 2, exGaps), exData out2 PID_DATA0 [31] true,
    (.token Device.PID_SETUP 0 0, exGaps), exData ⟨Device.PID_SETUP, 0⟩ PID_DATA0 [0x02, 1, 0, 0, 0x02, 0, 0, 0] true,
    (.token Device.PID_IN 0 0, exGaps), (.handshake PID_ACK, exGaps),
@@ -1090,14 +1248,14 @@ example : histOk {} exEc Device.init {} false exHistory = true := by decide +ker
 example : (C12.sliceRun {} exEc (Device.init, .sout {}) (exHistory.map (·.1))).map wiresOf =
     [[.ack], [], [.ack], [], [.ack], [], [], [], [], [.ack], [.nak],
      [.xfer (11, true, false), .xfer (12, false, false), .xfer (13, false, true), .xfer (21, true, false)],
-     [], [], [], [.ack], [], [], [], [], [], [.ack],
+     [], [], [], [], [], [.ack], [], [], [], [], [], [.ack],
      [.xfer (22, false, true), .xfer (31, true, true), .xfer (41, true, true)]] := by decide +kernel
 /-- … and without the CLEAR_FEATURE transfer `[41]` is ACKed as a repetition and dropped -/
-example : ((C12.sliceRun {} exEc (Device.init, .sout {}) ((exHistory.take 16 ++ exHistory.drop 20).map (·.1))).map
+example : ((C12.sliceRun {} exEc (Device.init, .sout {}) ((exHistory.take 18 ++ exHistory.drop 22).map (·.1))).map
     wiresOf).getLast? = some [.xfer (22, false, true), .xfer (31, true, true)] := by decide +kernel
 example : cycObs {} exEc Device.init init exHistory =
     (C12.sliceRun {} exEc (Device.init, .sout {}) (exHistory.map (·.1))).map wiresOf := by decide +kernel
-example : (expandAll {} exEc Device.init exHistory).length = 244 := by decide +kernel
+example : (expandAll {} exEc Device.init exHistory).length = 260 := by decide +kernel
 /-- the hypotheses of `out_cycle_refines_run` hold for this history from reset -/
 example : ∃ e' a', (C12.sliceFinal {} exEc (Device.init, .sout {}) (exHistory.map (·.1))).2 = .sout e' ∧
     Rel (cfgOf exEc) e' (runState (cfgOf exEc) init (expandAll {} exEc Device.init exHistory))
